@@ -341,6 +341,10 @@ def run(P, R, tier):
             prev = [x for x in terms if any(a.endswith("." + t.attr) for a in x[1]) and len(x[1]) == 1]
             new_t = [x for x in terms if x not in prev]
             R.check(any(s_ == 1 for s_, a in prev), "DEP.accumulators", e.key, f"{t.attr} adds to its previous value", "", f"accumulator {t.attr} is overwritten instead of accumulated over the samples", st.lineno)
+            lead = need[t.attr][0]
+            lead_t = [x for x in new_t if any((a.endswith("." + lead) or a == lead) for a in x[1]) and not any(a.endswith(".means") or a == "means" for a in x[1])]
+            # (compensated summation hands back error terms of both signs: only a statistic that enters *only* negatively is wrong)
+            R.check(not lead_t or any(s_ == 1 for s_, a in lead_t), "POL.acc-sign", e.key, f"{t.attr} += ... {lead} ...", "the sample's statistic is added", f"the term of `{t.attr}` that carries the sample's `{lead}` is {pol.fmt_terms(lead_t)[:70] or 'missing'}: it is subtracted from (not added to) the accumulator", st.lineno)
             for nd in need[t.attr]:
                 got = any(any((a.endswith("." + nd) or nd in a) for a in x[1]) for x in new_t)
                 R.check(got, "DEP.accumulators", e.key, f"{t.attr} accumulates a term with {nd}", "", f"accumulator {t.attr} lacks its {nd} factor ({pol.fmt_terms(new_t)[:90]})", st.lineno)
@@ -354,6 +358,45 @@ def run(P, R, tier):
             n_sigma += 1
             c = cone(du, v, du.stmt_of(st), interproc=False)
             R.check(c.has_attr("snormij") and c.has_attr("fnorm_sigma_wij") and c.has_attr("nij"), "DEP.sigma", f.key, f"{src(t)} = {src(v)[:40]}", "(Snorm - diag(Fnorm E[w]' T')) / N", "the new sigma is not computed from the centred second-order statistics, the cross term and the counts", st.lineno)
+            # sign structure of the update: the node that combines the centred second-order statistics with the part explained by T
+            from ..dataflow import resolve_name as _rn10
+            comb = []
+            todo_ = [(v, du.stmt_of(st))]
+            seen_ = set()
+            while todo_:
+                e_, s_ = todo_.pop()
+                e_, s_ = _rn10(du, e_, s_)
+                if id(e_) in seen_:
+                    continue
+                seen_.add(id(e_))
+                if isinstance(e_, ast.BinOp) and isinstance(e_.op, (ast.Add, ast.Sub)):
+                    cl_, cr_ = cone(du, e_.left, s_, interproc=False), cone(du, e_.right, s_, interproc=False)
+                    l_sn, r_sn = cl_.has_attr("snormij"), cr_.has_attr("snormij")
+                    l_fn, r_fn = cl_.has_attr("fnorm_sigma_wij"), cr_.has_attr("fnorm_sigma_wij")
+                    if (l_sn and r_fn and not l_fn) or (r_sn and l_fn and not r_fn):
+                        comb.append((e_, l_sn and r_fn))
+                        continue
+                for c_ in ast.iter_child_nodes(e_):
+                    if isinstance(c_, ast.expr) and not isinstance(e_, ast.Call):
+                        todo_.append((c_, s_))
+                    elif isinstance(c_, ast.expr) and isinstance(e_, ast.Call) and c_ in e_.args:
+                        todo_.append((c_, s_))
+            if comb:
+                def _usign(x_, s_):
+                    sg = 1
+                    x_, s_ = _rn10(du, x_, s_)
+                    while isinstance(x_, ast.UnaryOp) and isinstance(x_.op, (ast.USub, ast.UAdd)):
+                        sg = -sg if isinstance(x_.op, ast.USub) else sg
+                        x_, s_ = _rn10(du, x_.operand, s_)
+                    return sg
+                for e_, snorm_left in comb:
+                    sl_ = _usign(e_.left, du.stmt_of(st))
+                    sr_ = _usign(e_.right, du.stmt_of(st)) * (1 if isinstance(e_.op, ast.Add) else -1)
+                    s_sn, s_fn = (sl_, sr_) if snorm_left else (sr_, sl_)
+                    ok_ = s_sn == 1 and s_fn == -1
+                    R.check(ok_, "POL.sigma", f.key, f"sigma ~ {src(e_)[:70]}", "Snorm - diag(Fnorm E[w]' T')", f"the covariance update combines the centred second-order statistics and the part explained by T as `{src(e_)[:70]}`: the explained part must be subtracted from the statistics", getattr(e_, "lineno", st.lineno))
+            else:
+                R.undecided("POL.sigma", f.key, f"sigma = {src(v)[:60]}", "the node that combines Snorm with the part explained by T was not found", st.lineno)
             g_ = [src(test) for test, pol_ in guards_of(du.stmt_of(st)) if pol_]
             R.check(any("update_sigma" in x for x in g_), "DEP.sigma", f.key, "sigma updated under machine.update_sigma", "", "sigma is updated regardless of update_sigma", st.lineno)
         if isinstance(t, ast.Attribute) and t.attr == "T" and isinstance(t.value, ast.Name) and t.value.id == mp:
@@ -382,3 +425,15 @@ def run(P, R, tier):
 
 
 EXPLANATION += ' Also: literal coefficient 2 of the Snorm cross term, no division in the E-step sums, the M-step stores T on every call (solved from both accumulators) and sigma under update_sigma; posterior moments are opaque to the sign rules (their sign is data dependent); the kernels may be written out in place or moved into a helper; (MEMO) no memo derived from T / sigma survives their update; (DTYPE.raw).'
+
+
+_run_c10_r6 = run
+
+
+def run(P, R, tier):
+    _run_c10_r6(P, R, tier)
+    from ..engines import carry as _carry
+    _carry.check_stale_derived(P, R, "ivector:IVectorMachine.fit")
+
+
+EXPLANATION += " (STALE.derived) a local computed from T / sigma in the training loop is recomputed after every update of them before it is used again (no path from the update to the use without a definition)."
